@@ -1,8 +1,10 @@
 #!/bin/sh
-# Build the framework from files on disk only (offline).
-set -e
+# Build the framework from files on disk only (offline). Best effort per property: a module or
+# binary that fails to build must not keep the others from being warmed up; ./check rebuilds what
+# it needs and reports failures itself.
 cd "$(dirname "$0")"
 export CARGO_NET_OFFLINE=true
 python3 tools/extract.py || true
-(cd lean && lake build EcModel $(grep -o 'drv_c[0-9a-z_]*' lakefile.toml | sort -u))
-(cd harness && cargo build --offline)
+(cd lean && for t in $(python3 ../tools/props.py --targets); do lake build $t || echo "setup: lake build $t failed"; done)
+(cd harness && cargo build --offline --keep-going || echo "setup: some harness binaries failed to build")
+exit 0
